@@ -241,6 +241,17 @@ with field_tables_l (l : tlist) : list (option tref) :=
 with field_tables_w (l : wlist) : list (option tref) :=
   match l with WNil => [] | WCons c v r => field_tables c ++ field_tables v ++ field_tables_w r end.
 
+(* the tables of the field leaves of an item's own terms: Term.fields_() walks nodes_(), which does not descend into a
+   QueryBuilder (Term.nodes_ yields the builder itself only), so sub-queries contribute nothing *)
+Fixpoint item_tables (i : item) : list (option tref) :=
+  match i with
+  | IT t | IIn t _ _ | ICmp _ t _ => field_tables t
+  | ISub _ | IExists _ _ => []
+  | IFunc _ args _ => (fix go (l : list item) : list (option tref) := match l with [] => [] | x :: r => (item_tables x ++ go r)%list end) args
+  | ICplx _ l r => (item_tables l ++ item_tables r)%list
+  | INot x => item_tables x
+  end.
+
 (* ---------------- the renderer ---------------- *)
 Definition ctx_item (k : kctx) (walias subquery : bool) (wns : bool) : ctx :=
   set_wn (set_subq (set_wa (kc k) walias) subquery) wns.
@@ -301,10 +312,8 @@ with rquery (kin : kctx) (walias subquery : bool) (ali : option string) (x : que
       let (jnames, _) := name_joins (base_tables from) n1 joins in
       let srcs := (src_refs from fnames ++ src_refs (map (fun j => snd (fst j)) joins) jnames)%list in
       let in_scope (tb : tref) := existsb (tref_eqb tb) srcs in
-      let foreign := match wheres with
-                     | Some (IT w) => existsb (fun o => match o with Some tb => negb (in_scope (resolve_tref srcs tb)) | None => false end)
-                                              (field_tables w)
-                     | _ => false end in
+      let foreign := existsb (fun o => match o with Some tb => negb (in_scope (resolve_tref srcs tb)) | None => false end)
+                             (match wheres with Some w => item_tables w | None => [] end) in
       let wns := negb (Nat.eqb (List.length joins) 0) || Nat.ltb 1 (List.length from)
                  || (match from with SrcQ y :: _ => is_builder y | _ => false end)
                  || foreign in
@@ -407,10 +416,8 @@ with rquery (kin : kctx) (walias subquery : bool) (ali : option string) (x : que
       let (jnames, _) := name_joins (tbl :: base_tables from) n1 joins in
       let srcs := (src_refs from fnames ++ src_refs (map (fun j => snd (fst j)) joins) jnames)%list in
       let in_scope (tb : tref) := existsb (tref_eqb tb) (tbl :: srcs) in
-      let foreign := match wheres with
-                     | Some (IT w) => existsb (fun o => match o with Some tb => negb (in_scope (resolve_tref srcs tb)) | None => false end)
-                                              (field_tables w)
-                     | _ => false end in
+      let foreign := existsb (fun o => match o with Some tb => negb (in_scope (resolve_tref srcs tb)) | None => false end)
+                             (match wheres with Some w => item_tables w | None => [] end) in
       let wns := negb (Nat.eqb (List.length joins) 0) || Nat.ltb 1 (List.length from)
                  || (match from with SrcQ y :: _ => is_builder y | _ => false end)
                  || foreign || negb (Nat.eqb (List.length from) 0) in
@@ -458,10 +465,8 @@ with rquery (kin : kctx) (walias subquery : bool) (ali : option string) (x : que
       let (fnames, _) := name_from sub_count 0 from in
       let srcs := src_refs from fnames in
       let in_scope (tb : tref) := existsb (tref_eqb tb) srcs in
-      let foreign := match wheres with
-                     | Some (IT w) => existsb (fun o => match o with Some tb => negb (in_scope (resolve_tref srcs tb)) | None => false end)
-                                              (field_tables w)
-                     | _ => false end in
+      let foreign := existsb (fun o => match o with Some tb => negb (in_scope (resolve_tref srcs tb)) | None => false end)
+                             (match wheres with Some w => item_tables w | None => [] end) in
       let wns := Nat.ltb 1 (List.length from) || (match from with SrcQ y :: _ => is_builder y | _ => false end) || foreign in
       let base := set_wn (kc k) wns in
       let kk := with_c k base in
